@@ -33,14 +33,16 @@ structure ArnSt (K V : Type) where
   stop : Bool            -- `break` taken
   rank : Nat
 
-/-- one pass of `for (j = 0; j < maxiter; j++)`; `m = maxiter`, `d` = any vector (never used: `vs ≠ []`) -/
-def arnStep (o : Ops K V) (sqrt : K → K) (small : K → Bool) (m : Nat) (d : V) (s : ArnSt K V) : ArnSt K V :=
+/-- one pass of `for (j = 0; j < maxiter; j++)`; `m = maxiter`, `d` = any vector (never used: `vs ≠ []`);
+`sdiv v a` = the vector `v[i] / a` (the C++ divides; over a field `(1/a) • v`) -/
+def arnStep (o : Ops K V) (sdiv : V → K → V) (sqrt : K → K) (small : K → Bool) (m : Nat) (d : V) (s : ArnSt K V) :
+    ArnSt K V :=
   if s.stop then s else
     let j := s.cols.length
     let r := orthO o s.vs (o.A (s.vs.getLast?.getD d))
     let nrm := sqrt (o.dot r.1 r.1)
     if small nrm then ⟨s.vs, s.cols ++ [r.2 ++ [0]], true, j + 1⟩
-    else if j + 1 < m then ⟨s.vs ++ [o.smul (1 / nrm) r.1], s.cols ++ [r.2 ++ [nrm]], false, s.rank⟩
+    else if j + 1 < m then ⟨s.vs ++ [sdiv r.1 nrm], s.cols ++ [r.2 ++ [nrm]], false, s.rank⟩
     else ⟨s.vs, s.cols ++ [r.2 ++ [0]], false, s.rank⟩
 
 /-- entry `(i, j)` of the array `H` after the loop (zero initialised, columns stored by `arnStep`) -/
@@ -71,9 +73,10 @@ def utSolve (absK : K → K) (small : K → Bool) (H : List (List K)) (g : List 
     utSolve absK small H g i ((if small (absK rii) then 0 else temp / rii) :: acc)
 
 /-- everything after `V[0] = b / normb`, `g[0] = normb`: returns `x` -/
-def dgCore (o : Ops K V) (sqrt absK : K → K) (small isZero : K → Bool) (n m : Nat) (b : V) (normb : K) : V :=
-  let v0 := o.smul (1 / normb) b
-  let a := iter (arnStep o sqrt small m b) m (⟨[v0], [], false, m⟩ : ArnSt K V)
+def dgCore (o : Ops K V) (sdiv : V → K → V) (sqrt absK : K → K) (small isZero : K → Bool) (n m : Nat) (b : V)
+    (normb : K) : V :=
+  let v0 := sdiv b normb
+  let a := iter (arnStep o sdiv sqrt small m b) m (⟨[v0], [], false, m⟩ : ArnSt K V)
   let hg := (List.range m).foldl (givStep sqrt isZero) (padCols m a.cols, normb :: List.replicate n 0)
   let y := utSolve absK small hg.1 hg.2 m []
   combO o (o.smul 0 b) (y.take a.rank) a.vs
@@ -108,8 +111,23 @@ def denseGmres (sqrt absK : K → K) (small isZero : K → Bool) (A : Vector (Ve
     let o := vecOps (fun a => a) Ab.1 Ab.1
     let normb := sqrt (o.dot Ab.2 Ab.2)
     if small normb then Vector.ofFn (fun _ => 0)
-    else dgCore o sqrt absK small isZero n m Ab.2 normb
+    else dgCore o (fun v a => v.map (· / a)) sqrt absK small isZero n m Ab.2 normb
 end
+
+/-- diagnostics of a run: the stored subdiagonal entries `H[j+1, j]` (`0` for the pass that took the `break`
+and for the last pass); a tiny non-zero entry marks a Krylov space exhausted up to rounding -/
+def denseGmresTrace {K : Type} [Add K] [Sub K] [Mul K] [Div K] [Neg K] [OfNat K 0] [OfNat K 1] {n : Nat}
+    (sqrt absK : K → K) (small : K → Bool) (A : Vector (Vector K n) n) (b : Vector K n)
+    (maxiter : Nat) (precondition : Bool) : List K :=
+  let m := if maxiter = 0 then n else min maxiter n
+  if n = 1 then []
+  else
+    let Ab := dgSystem absK small A b precondition
+    let o := vecOps (fun a => a) Ab.1 Ab.1
+    let normb := sqrt (o.dot Ab.2 Ab.2)
+    if small normb then []
+    else ((iter (arnStep o (fun v a => v.map (· / a)) sqrt small m Ab.2) m
+      (⟨[Ab.2.map (· / normb)], [], false, m⟩ : ArnSt K (Vector K n))).cols).map (fun c => c.getLast?.getD 0)
 
 /-- the `Float` instance the driver runs (`A` by rows as the C++ indexes it) -/
 def denseGmresFloat (A : List (List Float)) (b : List Float) (maxiter : Nat) (precondition : Bool) :
@@ -119,5 +137,11 @@ def denseGmresFloat (A : List (List Float)) (b : List Float) (maxiter : Nat) (pr
   | some A, some b =>
     some (denseGmres Float.sqrt Float.abs (fun a => a < 1e-12) (fun a => a == 0) A b maxiter precondition).toList
   | _, _ => none
+
+def denseGmresTraceFloat (A : List (List Float)) (b : List Float) (maxiter : Nat) (precondition : Bool) : List Float :=
+  let n := b.length
+  match toMat? n A, toVec? n b with
+  | some A, some b => denseGmresTrace Float.sqrt Float.abs (fun a => a < 1e-12) A b maxiter precondition
+  | _, _ => []
 
 end PyamgV.C11XG
